@@ -53,6 +53,9 @@ type PCase struct {
 	Caps   string `json:"caps"`   // basic | flusher | full
 	Accept int    `json:"accept"` // total bytes the underlying writer accepts (-1 = unlimited)
 	Ops    []POp  `json:"ops"`
+	// Panic: after its last call the handler panics with http.ErrAbortHandler (how a handler aborts a
+	// response): what was sent until then is still what AccessHandler reports, once
+	Panic bool `json:"handler_panics,omitempty"`
 }
 
 // fakeRW is the underlying ResponseWriter.
@@ -167,9 +170,19 @@ func runProxy(c *PCase) (string, bool) {
 				w.Header().Set("X-Op", "v")
 			}
 		}
+		if c.Panic {
+			panic(http.ErrAbortHandler)
+		}
 	}))
 	req := httptest.NewRequest("GET", "/x", nil)
-	h.ServeHTTP(under, req)
+	func() {
+		defer func() {
+			if r := recover(); r != nil && r != http.ErrAbortHandler {
+				panic(r)
+			}
+		}()
+		h.ServeHTTP(under, req)
+	}()
 	// model
 	wantStatus := 0
 	sent := false
@@ -280,6 +293,7 @@ func TestProxyRapid(t *testing.T) {
 			}
 			c.Ops = append(c.Ops, op)
 		}
+		c.Panic = rapid.IntRange(0, 5).Draw(rt, "panic") == 0
 		msg, nt := runProxy(c)
 		b, _ := json.Marshal(c)
 		rec.Case(b, nt, "proxy-rapid", "caps:"+c.Caps)
